@@ -51,6 +51,9 @@ pub struct Scenario {
     /// None = the shipped defaults
     #[serde(default)]
     pub store_caches: Option<[usize; 6]>,
+    /// clear the transaction verification cache before every verify step (cold twin)
+    #[serde(default)]
+    pub verify_cache_cold: bool,
 }
 
 pub fn gen_cfg(r: &mut Rng) -> Cfg {
@@ -310,6 +313,7 @@ pub fn generate_c07(seed: u64) -> Scenario {
         ops,
         freezer: false,
         store_caches: None,
+        verify_cache_cold: false,
     }
 }
 
@@ -318,17 +322,88 @@ pub fn generate(seed: u64, prop: &str) -> Scenario {
         return generate_c07(seed);
     }
     let mut r = Rng::new(seed ^ 0x51D0_0000);
-    let cfg = gen_cfg(&mut r);
+    let mut cfg = gen_cfg(&mut r);
+    if prop == "C14" {
+        cfg.wlock_cells = r.urange(2, 6);
+    }
     let n = if prop == "C08" { r.urange(6, 24) } else { r.urange(8, 60) };
     let rich = prop != "C01" || r.chance(1, 2);
     let invalid = match prop {
         "C01" | "C03" => r.urange(0, 3),
         "C08" => r.urange(0, 2),
+        "C14" => r.urange(0, 3),
         "C06" | "C19" => r.urange(0, 2),
         _ => if r.chance(1, 4) { 1 } else { 0 },
     };
-    let tree = gen_tree(&mut r, n, rich, invalid);
-    let mut ops = gen_ops(&mut r, n, true, prop == "C02");
+    let mut tree = gen_tree(&mut r, n, rich, invalid);
+    if prop == "C14" {
+        // most of the broken blocks carry the same transaction content with a failing witness
+        for t in tree.iter_mut() {
+            if t.recipe.mutation.is_some() && r.chance(2, 3) {
+                t.recipe.mutation = Some("witness_swap".into());
+            }
+            t.recipe.new_txs = t.recipe.new_txs.max(1);
+            t.recipe.commit = t.recipe.commit.max(2);
+            t.recipe.propose = t.recipe.propose.max(2);
+        }
+    }
+    if prop == "C14" {
+        // failing-witness twins: right after a valid block X an (otherwise identical) sibling X'
+        // commits the same transactions with witness 0 swapped, and a child on top of X' makes
+        // that branch heavier, so that X' gets verified after X's transactions were cached
+        let k = r.urange(1, 3);
+        let mut twinned: Vec<u64> = Vec::new();
+        for _ in 0..k {
+            let i = r.idx(tree.len()); // 0-based position; block index = i + 1
+            if tree[i].recipe.mutation.is_some() || twinned.contains(&tree[i].recipe.seed) || tree[i].recipe.seed >> 20 >= 9_000 {
+                continue;
+            }
+            twinned.push(tree[i].recipe.seed);
+            let mut twin = tree[i].clone();
+            twin.recipe.miner = (twin.recipe.miner + 1) % 4;
+            twin.recipe.mutation = Some("witness_swap".into());
+            let mut child = TreeOp { parent: i + 2, recipe: gen_recipe(&mut r, 9_000 + i as u64, false) };
+            child.recipe.uncles = 0;
+            for t in tree.iter_mut().skip(i + 1) {
+                if t.parent > i + 1 {
+                    t.parent += 2;
+                }
+            }
+            tree.insert(i + 1, twin);
+            tree.insert(i + 2, child);
+        }
+    }
+    let n = tree.len();
+    let mut ops = if prop == "C14" {
+        // twins must not depend on hash-map iteration order (the number of RandomState instances
+        // differs with the cache configuration): deliver parents before children, so that no
+        // orphan subtree is ever released in hash order; duplicates only of delivered blocks
+        let mut ops = Vec::new();
+        let eager = r.range(0, 100);
+        for b in 1..=n {
+            ops.push(Op::Deliver { b });
+            if tree[b - 1].recipe.mutation.as_deref() == Some("witness_swap")
+                || (b >= 2 && tree[b - 2].recipe.mutation.as_deref() == Some("witness_swap"))
+                || (b < n && tree[b].recipe.mutation.as_deref() == Some("witness_swap"))
+            {
+                ops.push(Op::Drain);
+            }
+            if r.chance(1, 5) {
+                ops.push(Op::Deliver { b: r.urange(1, b) });
+            }
+            for _ in 0..r.urange(0, 3) {
+                if r.below(100) < eager {
+                    ops.push(if r.chance(1, 2) { Op::StepPreload } else { Op::StepVerify });
+                }
+            }
+            if r.chance(1, 12) {
+                ops.push(Op::Drain);
+            }
+        }
+        ops
+    } else {
+        gen_ops(&mut r, n, true, prop == "C02")
+    };
     if prop == "C20" || (prop == "C02" && r.chance(1, 3)) {
         // clean restarts at arbitrary points
         let k = r.urange(1, 3);
@@ -356,5 +431,6 @@ pub fn generate(seed: u64, prop: &str) -> Scenario {
             }
             _ => None,
         },
+        verify_cache_cold: false,
     }
 }
